@@ -40,6 +40,21 @@ def make_manager_class():
             if event.name == "CONNECTION_FINISHED":
                 rec["kw_facade_is_none"] = kw.get("facade") is None
             mw.events.append(rec)
+            if event.name == "CLIENT_HAS_STATUS_SENSOR" and self.status_sensor is not None:
+                # a client watching the status sensor (a UI label): what it reads INSIDE its notification
+                from geckolib import GeckoSpaState
+
+                def _sensor_changed(sender=None, old=None, new=None, _man=self):
+                    try:
+                        shown = _man.status_sensor.state
+                    except Exception as e_:  # noqa
+                        shown = f"raised {type(e_).__name__}"
+                    mw.sensor_notifications.append({"t": mw.w.now, "seq": mw.next_seq(), "shown": shown, "state": _man._spa_state.name, "expected": GeckoSpaState.to_string(_man._spa_state), "old": old, "new": new})
+
+                try:
+                    self.status_sensor.watch(_sensor_changed)
+                except Exception:  # noqa
+                    pass
             if mw.on_event is not None:
                 mw.on_event(self, event.name)
             # (not while the delivering task is being cancelled: an exception raised then replaces the
@@ -147,6 +162,7 @@ class ManWorld:
         path = snapshot if os.path.isabs(snapshot) else os.path.join(snapshot_dir(), snapshot)
         self.sim = SimHost(self.w.net, path)
         self.events, self.api, self.samples = [], [], []
+        self.sensor_notifications = []
         self.suspend_mode = suspend
         self.suspend_events = None
         self.mode = "healthy"
